@@ -56,6 +56,14 @@ HAND = r'''
 pub uninterp spec fn idv(i: &rustpython_parser::ast::Identifier) -> Seq<char>;
 pub assume_specification<'a>[ rustpython_parser::ast::Identifier::as_str ](i: &'a rustpython_parser::ast::Identifier) -> (r: &'a str)
     ensures r@ == idv(i);
+/// `identifier.to_string()` (ToString through Display, which writes the wrapped string): vstd gives the blanket
+/// impl the postcondition `to_string_from_display_ensures(t, res)`; this pins it down for Identifier
+pub mod astspec_ax {
+    use super::*;
+    pub broadcast axiom fn axiom_identifier_to_string(t: &rustpython_parser::ast::Identifier, res: String)
+        ensures #[trigger] vstd::string::to_string_from_display_ensures::<rustpython_parser::ast::Identifier>(t, res) <==> (idv(t) == res@);
+}
+pub use astspec_ax::*;
 /// a byte offset into the source text
 pub uninterp spec fn tsv(t: rustpython_parser::text_size::TextSize) -> usize;
 pub assume_specification[ rustpython_parser::text_size::TextSize::to_usize ](t: &rustpython_parser::text_size::TextSize) -> (r: usize)
